@@ -70,7 +70,19 @@ def linform(fn, op, depth=10):
         return None
     if len(p) != 1:
         return None
-    if fn.local_name(l) or 1 <= l <= fn.arg_count:
+    if 1 <= l <= fn.arg_count:
+        return {("l", l): 1}
+    if fn.local_name(l):
+        # a named local is a symbol, unless it merely names a sum/difference computed once (`let frame_len = H + a + b;`)
+        d0 = fn.single_def(l)
+        if d0 and d0[1] != "term" and d0[2]["k"] == "use" and "k" not in d0[2]["a"]:
+            sp0 = op_place(d0[2]["a"])
+            if sp0 and len(sp0) == 2 and sp0[1] == "f:0":
+                dd = fn.single_def(sp0[0])
+                if dd and dd[1] != "term" and dd[2]["k"] == "binop" and dd[2]["op"] in ("AddWithOverflow", "SubWithOverflow"):
+                    r0 = linform(fn, d0[2]["a"], depth - 1)
+                    if r0 is not None:
+                        return r0
         return {("l", l): 1}
     d = fn.single_def(l)
     if not d or d[1] == "term":
